@@ -52,7 +52,18 @@ def gen_grammars(shard: dict):
         for i in range(shard["count"]):
             rnd = random.Random(seed_int(shard["seed"], "g", i))
             g = G.GrammarGen(rnd, prof).grammar(maxdepth=shard.get("maxdepth", 3))
+            if shard.get("rename") and i % 2 == 0:
+                g = G.rename_rules(g, rnd)
             yield f"random/{shard['profile']}/{shard['seed']}/{i}", g
+    elif src == "stackscen":
+        for i in range(shard["count"]):
+            rnd = random.Random(seed_int(shard["seed"], "sc", i))
+            yield f"stackscen/{shard['seed']}/{i}", G.stack_scenario(rnd)
+    elif src == "stackdig":
+        for idx in shard["indices"]:
+            label, rules, inputs = G.stack_dig_case(idx)
+            EXTRA_INPUTS[label] = inputs
+            yield label, rules
     elif src == "matrix":
         for idx in shard["indices"]:
             c = G.matrix_case(idx)
@@ -71,6 +82,9 @@ def gen_grammars(shard: dict):
             yield g.get("label", f"explicit/{i}"), rules_from_json(g["rules"])
     else:
         raise ValueError(src)
+
+
+EXTRA_INPUTS: dict[str, list[str]] = {}
 
 
 class GCase:
@@ -337,6 +351,9 @@ def prepare_case(gc: GCase, shard: dict, rnd: random.Random, acc: Acc) -> bool:
         gc.refev = refev
         return True
     inputs, info = G.inputs_for(gc.rules, gc.starts[0], rnd, cap, shard.get("maxlen", 4), shard.get("extra_alpha", ""))
+    for extra_in in EXTRA_INPUTS.pop(gc.label, []):
+        if extra_in not in inputs:
+            inputs.append(extra_in)
     gc.info = info
     gc.inputs = inputs
     positions = shard.get("positions", False)
